@@ -260,9 +260,20 @@ def check_chain_order(R, prog):
         for f in mine:
             T.bad(f)
     with_semantics(R, P, shape, semantic_parse_command_line(prog), "parse_command_line splits at -T in order", pc, rule="CHAIN-ORDER")
+    from . import _cli_fold
+    drv = _cli_fold.verdict(prog, "cnfgen")          # the driver folded on scripted parsers / helpers: order and options of the -T chain
+    cli = prog.func("cnfgen.clitools.cnfgen", "cli")
+    if drv[0] is True:
+        R.ok("CHAIN-ORDER", "cnfgen.cli: %s" % drv[1], cli.key)
+    elif drv[0] is False:
+        R.bad(F("CHAIN-ORDER", cli, "cnfgen.cli applies the transformations in command line order", drv[1]))
     for f in T0.findings:
         if f not in mine:
-            R.bad(f)
+            if drv[0] is True and f.function == "cli":
+                R.unknown(f.rule, f.construct, "%s:%s %s" % (f.file, f.line, f.function),
+                          "shape not recognised (%s); the meaning of the fragment was confirmed by folding" % f.message[:100])
+            else:
+                R.bad(f)
     for u in T0.unproven:
         R.unknown(u["rule"], u["instance"], u["where"], u["why"])
 
